@@ -78,6 +78,8 @@ class Scenario:
         self.nlisteners = listeners
         self.running = False
         self.events = []
+        self.ttls = TTLS
+        self.lost = False
 
     # ---------------- inputs
     def in_offer(self, impl, kind="offer"):
@@ -88,7 +90,7 @@ class Scenario:
         entries, info = [], []
         for _ in range(n):
             sid, iid, maj, mi = rng.choice(SERVICES)
-            ttl = 0 if (kind == "stop" or rng.random() < 0.25) else rng.choice(TTLS)
+            ttl = 0 if (kind == "stop" or rng.random() < 0.25) else rng.choice(self.ttls)
             entries.append(C.Service(sid, iid, maj, mi).create_offer_entry(ttl))
             info.append(("offer", (sid, iid, maj, mi), ttl))
         reboot = kind == "reboot" or rng.random() < 0.08
@@ -110,7 +112,7 @@ class Scenario:
             sid, iid, maj, _mi = rng.choice(SERVICES)
             egid = rng.choice([5, 5, 6, 9])
             cnt = rng.choice([0, 0, 0, 1, 15])
-            ttl = 0 if (kind == "stopsub" or rng.random() < 0.25) else rng.choice(TTLS)
+            ttl = 0 if (kind == "stopsub" or rng.random() < 0.25) else rng.choice(self.ttls)
             neps = rng.choice([1, 1, 1, 1, 0, 2])
             opts = tuple(endpoint(p.n, 5000 + k) for k in range(neps))
             if rng.random() < 0.15:
@@ -136,9 +138,31 @@ class Scenario:
         self.rec.inp(impl.loop.ticks, ("dgram", p.n, mc, flag, sess, True, [("find", (f.service_id, f.instance_id, f.major_version, f.minor_version))]))
         return f"in dgram {p.n} {int(mc)} {hx(sd_bytes([f.create_find_entry(3)], sess, flag))}"
 
+    slots = None  # lid -> 'all' | filter index: every listener object is used for ONE registration only
+
     def in_watch(self, impl):
         rng = self.rng
         lid = rng.randrange(self.nlisteners)
+        if self.slots is not None:
+            slot = self.slots[lid]
+            if slot == "all":
+                key = ("all", lid)
+                if key in self.registered:
+                    self.registered.discard(key)
+                    self.rec.inp(impl.loop.ticks, ("unwatchAll", lid))
+                    return f"in unwatchAll {lid}"
+                self.registered.add(key)
+                self.rec.inp(impl.loop.ticks, ("watchAll", lid))
+                return f"in watchAll {lid}"
+            key = (slot, lid)
+            f = FILTERS[slot]
+            if key in self.registered:
+                self.registered.discard(key)
+                self.rec.inp(impl.loop.ticks, ("unwatch", slot, lid))
+                return f"in unwatch {sdio.svc_tok(f)} ext {lid}"
+            self.registered.add(key)
+            self.rec.inp(impl.loop.ticks, ("watch", slot, lid))
+            return f"in watch {sdio.svc_tok(f)} ext {lid}"
         if rng.random() < 0.35:
             key = ("all", lid)
             if key in self.registered:
@@ -173,8 +197,8 @@ class Scenario:
         if r < 0.6:
             # connection lost: stops everything that runs
             self.rec.inp(impl.loop.ticks, ("connLost",))
-            self.running_after_lost = True
-            self.conn_lost_pending = True
+            self.lost = True
+            self.running = False
             return "in connLost"
         i = rng.randrange(len(self.services)) if self.services else None
         if i is None:
@@ -212,7 +236,9 @@ class Scenario:
         return f"in setNak {i} {len(egs)}" + "".join(f" {e}" for e in egs)
 
     def pick_input(self, impl):
-        kinds = list(self.w.keys())
+        kinds = [k for k in self.w.keys() if not (self.lost and k in ("offer", "stopoffer", "reboot", "sub", "stopsub", "subreboot", "find"))]
+        if not kinds:
+            return None
         k = self.rng.choices(kinds, weights=[self.w[x] for x in kinds])[0]
         f = {"offer": lambda: self.in_offer(impl), "stopoffer": lambda: self.in_offer(impl, "stop"),
              "reboot": lambda: self.in_offer(impl, "reboot"), "sub": lambda: self.in_subscribe(impl),
@@ -295,6 +321,31 @@ def natural(impl, until):
             yield f"adv {nd}"
 
 
+def canon_state(line: str) -> str:
+    """Python iterates listener *sets*: the order of consecutive notifications that differ only in the listener id is
+    not defined. Sort every such run (same kind, service, source) by listener id - on both sides."""
+    if " outs=[" not in line:
+        return line
+    head, rest = line.split(" outs=[", 1)
+    outs, tail = rest.split("] ready=[", 1)
+    if not outs:
+        return line
+    items = outs.split(" ; ")
+    res, run, runkey = [], [], None
+    for it in items:
+        p = it.split(" ")
+        key = (p[0], p[1], tuple(p[3:])) if len(p) > 3 and p[1] in ("offered", "stopped") else None
+        if key is not None and key == runkey:
+            run.append(it)
+            continue
+        res += sorted(run, key=lambda x: int(x.split(" ")[2]))
+        run, runkey = ([it], key) if key is not None else ([], None)
+        if key is None:
+            res.append(it)
+    res += sorted(run, key=lambda x: int(x.split(" ")[2]))
+    return f"{head} outs=[{' ; '.join(res)}] ready=[{tail}"
+
+
 def execute(model, sc: Scenario, name="s"):
     """returns dict(events, impl_states, model_states, div, rec)"""
     impl = SDV.ImplStack(sc.tm, sc.services)
@@ -317,7 +368,7 @@ def execute(model, sc: Scenario, name="s"):
         div = -1
     else:
         for i, (a, b) in enumerate(zip(ist, outs[1:])):
-            if a != b:
+            if a != b and canon_state(a) != canon_state(b):
                 div = i
                 break
     return {"events": evs, "impl": ist, "model": outs[1:], "div": div, "rec": sc.rec, "first": (first, outs[0])}
